@@ -317,6 +317,40 @@ impl Write for YWriter {
         Ok(())
     }
 }
+/// a caller's writer that accepts `.1` bytes in all (a short count at the boundary) and then fails
+pub struct YFailWriter(pub Vec<u8>, pub usize);
+impl Write for YFailWriter {
+    fn write(&mut self, buf: &[u8]) -> std::io::Result<usize> {
+        yield_here(tok::Y_WRITE, "Write::write");
+        let room = self.1.saturating_sub(self.0.len());
+        if room == 0 && !buf.is_empty() {
+            return Err(std::io::Error::new(std::io::ErrorKind::Other, "simulated: the caller's writer failed"));
+        }
+        let n = room.min(buf.len());
+        self.0.extend_from_slice(&buf[..n]);
+        Ok(n)
+    }
+    fn flush(&mut self) -> std::io::Result<()> {
+        Ok(())
+    }
+}
+/// serialize through a caller's writer chosen by `mode`: 0-2 accept everything; 3 fails at once,
+/// 4 fails after 20 bytes. Returns the bytes the writer accepted; the image records a failure.
+fn ser_with<T: SerDes>(x: &T, c: bool, mode: usize, out: &mut Vec<u8>) -> Vec<u8> {
+    match mode % 6 {
+        3 | 4 => {
+            let mut w = YFailWriter(vec![], if mode % 6 == 3 { 0 } else { 20 });
+            let r = x.serialize(&mut w, c);
+            out.push(if r.is_err() { 0xEE } else { 0x0C });
+            w.0
+        }
+        _ => {
+            let mut w = YWriter(vec![]);
+            let _ = x.serialize(&mut w, c);
+            w.0
+        }
+    }
+}
 /// `.1`: this stream's data depends on another caller thread (its first read waits for it)
 pub struct YReader<'a>(pub &'a [u8], pub bool);
 impl<'a> Read for YReader<'a> {
@@ -886,19 +920,18 @@ where
         }
         "serdes" => {
             let c = a(1) % 2 == 1;
-            let mut w = YWriter(vec![]);
             if a(2) % 2 == 1 {
-                let _ = G::proj(a(0) % G::nsub()).serialize(&mut w, c);
+                let w = (ser_with(&G::proj(a(0) % G::nsub()), c, a(3), out), 0);
                 out.extend_from_slice(&w.0);
-                let mut r = YReader(&w.0, a(3) % 3 == 1);
+                let mut r = YReader(&w.0, a(3) % 6 == 1);
                 match G::deserialize(&mut r, c) {
                     Ok(p) => img_proj(&p, out),
                     Err(e) => out.extend_from_slice(format!("{:?}", e.kind()).as_bytes()),
                 }
             } else {
-                let _ = G::aff(a(0) % G::nsub()).serialize(&mut w, c);
+                let w = (ser_with(&G::aff(a(0) % G::nsub()), c, a(3), out), 0);
                 out.extend_from_slice(&w.0);
-                let mut r = YReader(&w.0, a(3) % 3 == 1);
+                let mut r = YReader(&w.0, a(3) % 6 == 1);
                 match G::Affine::deserialize(&mut r, c) {
                     Ok(p) => img_aff::<G>(&p, out),
                     Err(e) => out.extend_from_slice(format!("{:?}", e.kind()).as_bytes()),
@@ -1102,18 +1135,16 @@ pub fn eval<'a>(op: &Op, sh: &Shared, rs: &RunShared, tl: &mut ThreadObjs<'a>) -
         }
         "fr_serdes" => {
             let x = p.fr[a(0) % p.fr.len()];
-            let mut w = YWriter(vec![]);
-            let _ = x.serialize(&mut w, true);
+            let w = (ser_with(&x, true, a(1), &mut out), 0);
             out.extend_from_slice(&w.0);
-            let mut r = YReader(&w.0, a(1) % 3 == 1);
+            let mut r = YReader(&w.0, a(1) % 6 == 1);
             Fr::deserialize(&mut r, true).ok().img(&mut out);
         }
         "fq12_serdes" => {
             let x = p.fq12[a(0) % p.fq12.len()];
-            let mut w = YWriter(vec![]);
-            let _ = x.serialize(&mut w, true);
+            let w = (ser_with(&x, true, a(1), &mut out), 0);
             out.extend_from_slice(&w.0);
-            let mut r = YReader(&w.0, a(1) % 3 == 1);
+            let mut r = YReader(&w.0, a(1) % 6 == 1);
             Fq12::deserialize(&mut r, true).ok().img(&mut out);
         }
         "x_xmd_long" => {
